@@ -7,6 +7,11 @@ HOOK_COMMITS = subprocess.run(
     capture_output=True, text=True).stdout.strip().splitlines()
 
 CHECKS = {
+ "C02": dict(
+   text="Seeded deterministic simulation of the real streams engine with a concurrency quota (optional parent quota, optional second flow answering early after admission), its GC goroutine on the fake clock and a fake cluster liveness. Histories of request / response / proxy-error / abandon / duplicate-end / instance-left events with clock targets around expiry and expiry+GC, single or in concurrent groups interleaved at instrumented lock sites. Oracles: R1 certain holders <= max at every admission (sequence-number based), R2 capacity probes at quiescent points bound free slots from both sides (leak / double release), R3 full capacity after everything ended or expired. Sampling, not proof.",
+   design_ref="DESIGN.md section 4 C02",
+   note="Trusted: synctest fake clock; slot must be held until expiry (+10 ms) and may be held until one GC interval + 1 s later; the harness's definition of in-flight (admitted request returned .. end event invoked).",
+   technique="deterministic simulation: seeded event histories with abandon/error/expiry faults and lock-site interleaving, capacity-probe oracle against a reference in-flight set"),
  "C01": dict(
    text="Seeded deterministic simulation of the real streams engine (Limiter -> GenerateResponse flows over a generated 1-3 level fixed-window quota hierarchy with header groups) inside a synctest bubble. Sequential histories place requests exactly on, 1 ns before and after window ends and across long gaps; concurrent bursts are interleaved at instrumented lock sites. Oracle: executable reference counter per (quota, group, window) in two window-anchor readings; R1 bound (all runs), R2 no spurious refusal (sequential). Sampling, not proof.",
    design_ref="DESIGN.md section 4 C01",
